@@ -14,7 +14,7 @@ SRC_PREFIX, ID_PREFIX = "seed", "S"
 
 
 def sh(cmd, cwd=None, timeout=900):
-    return subprocess.run(cmd, shell=True, capture_output=True, text=True, env=ENV, cwd=cwd, timeout=timeout)
+    return subprocess.run(cmd, shell=True, capture_output=True, text=True, errors="replace", env=ENV, cwd=cwd, timeout=timeout)
 
 
 def clean():
